@@ -32,20 +32,20 @@ H = 2.0 ** -6
 # dyadic parameter sets (multiples of 1/16), one per model
 PAR = dict(
     alexander=dict(C1=0.125, C2=0.125, C3=0.0625, gamma=0.75, k=0.0625),
-    anssari_benam_bucchi=dict(mu=1.0, N=10.0),
-    arruda_boyce=dict(C1=1.0, limit=2.0),
-    blatz_ko=dict(mu=1.0),
+    anssari_benam_bucchi=dict(mu=1.25, N=10.0),
+    arruda_boyce=dict(C1=0.75, limit=2.0),
+    blatz_ko=dict(mu=1.25),
     extended_tube=dict(Gc=0.1875, Ge=0.25, beta=0.25, delta=0.125),
     lopez_pamies=dict(mu=[1.0, 0.5], alpha=[1.25, -0.75]),
     miehe_goektepe_lulei=dict(mu=0.125, N=3.25, U=10.0, p=6.25, q=0.625),
     mooney_rivlin=dict(C10=0.3125, C01=0.75),
-    neo_hooke=dict(mu=1.0),
-    ogden=dict(mu=[1.0, 0.25], alpha=[1.75, -1.5]),
-    saint_venant_kirchhoff=dict(mu=1.0, lmbda=2.0),
+    neo_hooke=dict(mu=1.25),
+    ogden=dict(mu=[0.75, 0.25], alpha=[1.75, -1.5]),
+    saint_venant_kirchhoff=dict(mu=1.25, lmbda=2.0),
     saint_venant_kirchhoff_orthotropic=dict(mu=[1.0, 0.75, 0.625], lmbda=[1.0, 0.875, 0.75, 0.6875, 0.625, 0.5]),
-    storakers=dict(mu=[1.0, 0.375], alpha=[2.0, -2.0], beta=[0.875, 0.9375]),
+    storakers=dict(mu=[0.75, 0.375], alpha=[2.0, -2.0], beta=[0.875, 0.9375]),
     third_order_deformation=dict(C10=0.5, C01=0.125, C11=0.0625, C20=-0.0625, C30=0.0625),
-    van_der_waals=dict(mu=1.0, beta=0.125, a=0.5, limit=15.0),
+    van_der_waals=dict(mu=1.25, beta=0.125, a=0.5, limit=15.0),
     yeoh=dict(C10=0.5, C20=-0.0625, C30=0.0625),
 )
 ANISOTROPIC = {"saint_venant_kirchhoff_orthotropic"}
@@ -83,13 +83,17 @@ def models(tier):
         M[name] = dict(um=um, sv=sv, hyper=hyper, iso=iso, energy=energy, key=key, tolscale=tolscale)
 
     add("NeoHooke", fem.NeoHooke(mu=1.25, bulk=4.0), energy=True, key=("NeoHooke", dict(mu=1.25, bulk=4.0)))
-    add("NeoHooke-nobulk", fem.NeoHooke(mu=1.0), energy=True)
+    # (parameters are never 1: a factor applied twice or not at all must be visible) ; every optional part switched off once
+    add("NeoHooke-nobulk", fem.NeoHooke(mu=1.25), energy=True)
+    add("NeoHooke-nomu", fem.NeoHooke(mu=None, bulk=3.5), energy=True)
     add("NeoHookeCompressible", fem.NeoHookeCompressible(mu=1.25, lmbda=2.0), energy=True, key=("NeoHookeCompressible", dict(mu=1.25, lmbda=2.0)))
+    add("NeoHookeCompressible-nolmbda", fem.NeoHookeCompressible(mu=1.25, lmbda=None), energy=True)
+    # (NeoHookeCompressible(mu=None), although documented as the default, raises TypeError in every method: an unsupported call, not a case)
     add("Volumetric", fem.Volumetric(bulk=3.0), energy=True, key=("Volumetric", dict(bulk=3.0)))
     add("LinearElasticLargeStrain", fem.LinearElasticLargeStrain(E=2.0, nu=0.25), energy=False, key=("LinearElasticLargeStrain", dict(E=2.0)))
-    add("OgdenRoxburgh-virgin", fem.OgdenRoxburgh(fem.NeoHooke(mu=1.0, bulk=4.0), r=3.0, m=1.0, beta=0.125),
+    add("OgdenRoxburgh-virgin", fem.OgdenRoxburgh(fem.NeoHooke(mu=1.25, bulk=4.0), r=3.0, m=0.75, beta=0.125),
         sv=lambda n: np.zeros((1, n, 1)), hyper=False)
-    add("OgdenRoxburgh-loaded", fem.OgdenRoxburgh(fem.NeoHooke(mu=1.0, bulk=4.0), r=3.0, m=1.0, beta=0.125),
+    add("OgdenRoxburgh-loaded", fem.OgdenRoxburgh(fem.NeoHooke(mu=1.25, bulk=4.0), r=3.0, m=0.75, beta=0.125),
         sv=lambda n: np.full((1, n, 1), 1.5), hyper=False)
     for k, p in PAR.items():
         iso = k not in ANISOTROPIC
@@ -97,14 +101,14 @@ def models(tier):
         if hasattr(jh, k):
             add("jax." + k, fj.Hyperelastic(getattr(jh, k), **p), iso=iso and k not in MICROSPHERE, key=(k, p),
                 tolscale=64 if k in EIGEN_JAX else 1)
-    add("tt.ogden_roxburgh-loaded", fem.Hyperelastic(th.ogden_roxburgh, material=th.neo_hooke, mu=1.0, r=3.0, m=1.0, beta=0.125, nstatevars=1),
+    add("tt.ogden_roxburgh-loaded", fem.Hyperelastic(th.ogden_roxburgh, material=th.neo_hooke, mu=1.25, r=3.0, m=0.75, beta=0.125, nstatevars=1),
         sv=lambda n: np.full((1, n, 1), 1.5), hyper=False)
-    add("tt.ogden_roxburgh-virgin", fem.Hyperelastic(th.ogden_roxburgh, material=th.neo_hooke, mu=1.0, r=3.0, m=1.0, beta=0.125, nstatevars=1),
+    add("tt.ogden_roxburgh-virgin", fem.Hyperelastic(th.ogden_roxburgh, material=th.neo_hooke, mu=1.25, r=3.0, m=0.75, beta=0.125, nstatevars=1),
         sv=lambda n: np.zeros((1, n, 1)), hyper=False)
     add("composite", fem.Hyperelastic(th.mooney_rivlin, C10=0.25, C01=0.5) & fem.Volumetric(bulk=4.0))
-    add("tt.total_lagrange-svk", fem.MaterialAD(fem.total_lagrange(lambda F, mu, lmbda: _svk_S(F, mu, lmbda)), mu=1.0, lmbda=2.0)
+    add("tt.total_lagrange-svk", fem.MaterialAD(fem.total_lagrange(lambda F, mu, lmbda: _svk_S(F, mu, lmbda)), mu=1.25, lmbda=2.0)
         if hasattr(fem, "total_lagrange") else None)
-    add("tt.updated_lagrange-neohooke", fem.MaterialAD(fem.updated_lagrange(_nh_cauchy), mu=1.0, lmbda=2.0))
+    add("tt.updated_lagrange-neohooke", fem.MaterialAD(fem.updated_lagrange(_nh_cauchy), mu=1.25, lmbda=2.0))
     add("tt.morph", fem.MaterialAD(tl.morph, p=[0.039, 0.371, 0.174, 2.41, 0.0094, 6.84, 5.65, 0.244], nstatevars=13),
         sv=lambda n: np.zeros((13, n, 1)), hyper=False, iso=False)
     # Seth-Hill generalisations of the Saint-Venant Kirchhoff models (principal-stretch branch), isotropic and orthotropic
@@ -115,8 +119,8 @@ def models(tier):
     add("tt.saint_venant_kirchhoff_orthotropic-k0", fem.Hyperelastic(th.saint_venant_kirchhoff_orthotropic, k=0, **PAR["saint_venant_kirchhoff_orthotropic"]),
         iso=False, tolscale=64)
     # user models built on the affine micro-sphere frameworks (21-point rule: objective, only approximately isotropic)
-    add("tt.microsphere-affine", fem.Hyperelastic(_affine(tms), mu=1.0), iso=False)
-    add("jax.microsphere-affine", fj.Hyperelastic(_affine(jms), mu=1.0), iso=False)
+    add("tt.microsphere-affine", fem.Hyperelastic(_affine(tms), mu=1.25), iso=False)
+    add("jax.microsphere-affine", fj.Hyperelastic(_affine(jms), mu=1.25), iso=False)
     # remaining Lagrange-type models with state variables, both back-ends; finite-strain viscoelasticity
     MP = [0.039, 0.371, 0.174, 2.41, 0.0094, 6.84, 5.65, 0.244]
     add("jax.morph", fj.Material(jl.morph, p=MP, nstatevars=13), sv=lambda n: np.zeros((13, n, 1)), hyper=False, iso=False)
@@ -125,10 +129,10 @@ def models(tier):
             sv=lambda n: np.zeros((84, n, 1)), hyper=False, iso=False)
         add("jax.morph_representative_directions", fj.Material(jl.morph_representative_directions, p=MP, nstatevars=84),
             sv=lambda n: np.zeros((84, n, 1)), hyper=False, iso=False)
-    add("tt.finite_strain_viscoelastic", fem.Hyperelastic(th.finite_strain_viscoelastic, mu=1.0, eta=2.0, dtime=0.5, nstatevars=6),
+    add("tt.finite_strain_viscoelastic", fem.Hyperelastic(th.finite_strain_viscoelastic, mu=1.25, eta=2.0, dtime=0.5, nstatevars=6),
         sv=lambda n: np.tile(np.array([1.0, 0.0, 0.0, 1.0, 0.0, 1.0])[:, None, None], (1, n, 1)), hyper=False, iso=False)     # C_in = 1 (upper triangle)
-    add("jax.total_lagrange-svk", fj.Material(fj.total_lagrange(_svk_S_jax), mu=1.0, lmbda=2.0))
-    add("jax.updated_lagrange-neohooke", fj.Material(fj.updated_lagrange(_nh_cauchy_jax), mu=1.0, lmbda=2.0))
+    add("jax.total_lagrange-svk", fj.Material(fj.total_lagrange(_svk_S_jax), mu=1.25, lmbda=2.0))
+    add("jax.updated_lagrange-neohooke", fj.Material(fj.updated_lagrange(_nh_cauchy_jax), mu=1.25, lmbda=2.0))
     return {k: v for k, v in M.items() if v["um"] is not None}
 
 
@@ -224,10 +228,10 @@ def c03(out, a):
     # mixed (u, p, J) formulations: every returned block is the mixed second derivative (None = 0)
     p0 = rng.randint(-2, 3, size=(1, n, 1)) / 8.0
     J0 = 1 + rng.randint(-1, 2, size=(1, n, 1)) / 16.0
-    for name, um in (("ThreeFieldVariation", fem.ThreeFieldVariation(fem.NeoHooke(mu=1.0, bulk=4.0))),
-                     ("NearlyIncompressible", fem.NearlyIncompressible(fem.NeoHooke(mu=1.0), bulk=8.0)),
+    for name, um in (("ThreeFieldVariation", fem.ThreeFieldVariation(fem.NeoHooke(mu=1.25, bulk=4.0))),
+                     ("NearlyIncompressible", fem.NearlyIncompressible(fem.NeoHooke(mu=1.25), bulk=8.0)),
                      # user-supplied non-quadratic volumetric part U = bulk / 2 ln(J)^2 through the documented optional arguments
-                     ("NearlyIncompressible-logU", fem.NearlyIncompressible(fem.NeoHooke(mu=1.0), bulk=8.0, dUdJ=lambda J, bulk: bulk * np.log(J) / J,
+                     ("NearlyIncompressible-logU", fem.NearlyIncompressible(fem.NeoHooke(mu=1.25), bulk=8.0, dUdJ=lambda J, bulk: bulk * np.log(J) / J,
                                                                          d2UdJdJ=lambda J, bulk: bulk * (1 - np.log(J)) / J ** 2)),
                      ("ThreeFieldVariation-ad", fem.ThreeFieldVariation(fem.Hyperelastic(th.mooney_rivlin, C10=0.25, C01=0.5) & fem.Volumetric(bulk=4.0)))):
         D = rng.randint(-1, 2, size=(3, 3)).astype(float)
@@ -264,11 +268,14 @@ def c03(out, a):
                 out.write({"id": rid, "kind": "deriv", "nt": True, "clause": "MixedBlocks", "tolscale": 1, "modes": [],
                            "D1": q(Ds[0][i], SD), "D2": q(Ds[1][i], SD), "D3": q(Ds[2][i], SD), "rhs": q(rhs, SK)})
     # small-strain framework: linear elastic law and the return-mapping plasticity (algorithmic tangent), away from the yield surface
-    for name, sy in (("MaterialStrain-elastic", 10.0), ("MaterialStrain-plastic", 0.0625)):
-        um = fem.MaterialStrain(material=fem.constitution.linear_elastic_plastic_isotropic_hardening, λ=2.0, μ=1.0, σy=sy, K=0.25,
+    for name, sy in (("MaterialStrain-elastic", 10.0), ("MaterialStrain-plastic", 0.0625), ("MaterialStrain-plastic-history", 0.0625)):
+        um = fem.MaterialStrain(material=fem.constitution.linear_elastic_plastic_isotropic_hardening, λ=2.0, μ=1.5, σy=sy, K=0.25,
                                 statevars=(1, (3, 3)))
         sv = np.zeros((28, n, 1))
         Fs = np.eye(3)[:, :, None, None] + (F - np.eye(3)[:, :, None, None]) / 2.0       # strains ~ 0.1: plastic for the small yield stress
+        if name.endswith("history"):      # stored state of a previous, different plastic step (second plastic step from a non-virgin state)
+            Fprev = np.eye(3)[:, :, None, None] - (F - np.eye(3)[:, :, None, None]) / 4.0
+            sv = np.asarray(um.gradient([Fprev, sv.copy()])[1], float)
         for dname, D in directions(rng, True):
             rid = "deriv-%s-%s" % (name, dname)
             if out.want(rid):
@@ -397,12 +404,12 @@ def c12(out, a):
             agree("agree-jax-tt-" + k, M["jax." + k], M["tt." + k], tol=8 * (512 if reg else 1), relbits=9 if reg else 15)
     wrap = lambda um: dict(um=um)  # noqa: E731
     # hand-coded <-> automatic differentiation
-    agree("agree-NeoHooke-ad", wrap(fem.NeoHooke(mu=1.0, bulk=4.0)), wrap(fem.Hyperelastic(th.neo_hooke, mu=1.0) & fem.Volumetric(bulk=4.0)))
-    agree("agree-NeoHooke-jax", wrap(fem.NeoHooke(mu=1.0)), wrap(fj.Hyperelastic(jh.neo_hooke, mu=1.0)))
+    agree("agree-NeoHooke-ad", wrap(fem.NeoHooke(mu=1.25, bulk=4.0)), wrap(fem.Hyperelastic(th.neo_hooke, mu=1.25) & fem.Volumetric(bulk=4.0)))
+    agree("agree-NeoHooke-jax", wrap(fem.NeoHooke(mu=1.25)), wrap(fj.Hyperelastic(jh.neo_hooke, mu=1.25)))
     sv = np.full((1, n, 1), 1.5)
-    agree("agree-OgdenRoxburgh-ad", wrap(fem.OgdenRoxburgh(fem.NeoHooke(mu=1.0), r=3.0, m=1.0, beta=0.125)),
-          wrap(fem.Hyperelastic(th.ogden_roxburgh, material=th.neo_hooke, mu=1.0, r=3.0, m=1.0, beta=0.125, nstatevars=1)), sva=sv, svb=sv)
-    agree("agree-SVK-total-lagrange", wrap(fem.Hyperelastic(th.saint_venant_kirchhoff, mu=1.0, lmbda=2.0)), M["tt.total_lagrange-svk"]) \
+    agree("agree-OgdenRoxburgh-ad", wrap(fem.OgdenRoxburgh(fem.NeoHooke(mu=1.25), r=3.0, m=0.75, beta=0.125)),
+          wrap(fem.Hyperelastic(th.ogden_roxburgh, material=th.neo_hooke, mu=1.25, r=3.0, m=0.75, beta=0.125, nstatevars=1)), sva=sv, svb=sv)
+    agree("agree-SVK-total-lagrange", wrap(fem.Hyperelastic(th.saint_venant_kirchhoff, mu=1.25, lmbda=2.0)), M["tt.total_lagrange-svk"]) \
         if "tt.total_lagrange-svk" in M else None
     # the same user model through both back-ends' wrappers and frameworks; Lagrange models with state variables in both back-ends
     agree("agree-total-lagrange-jax-tt", M["jax.total_lagrange-svk"], M["tt.total_lagrange-svk"])
@@ -480,7 +487,7 @@ def c12(out, a):
         par = {k: (qi(np.rint(np.array(v) * 16)) if isinstance(v, list) else int(round(v * 16))) for k, v in p.items()}
         sv0 = None
         loose = model in ("van_der_waals",) or (nm.startswith("jax.") and model in EIGEN_JAX)
-        out.write({"id": rid, "kind": "moduli", "nt": True, "model": model, "par": par, "tol": 4096 if loose else 64,
+        out.write({"id": rid, "kind": "moduli", "nt": True, "model": model, "par": par, "tol": 8192 if loose else 64,          # (van der Waals: Im += 1e-4 in the code shifts the modulus by 0.3 %)
                    "A": q(pt(hess(mm, I, sv0)), S)})
     for nm, um, model, p in (("LinearElastic", le, "LinearElastic", dict(E=2.0)), ("LinearElasticTensorNotation", lt, "LinearElasticTensorNotation", dict(E=2.0))):
         rid = "moduli-" + nm
